@@ -36,6 +36,7 @@ type PullOp struct {
 	Delay     time.Duration `json:"delay,omitempty"`
 	Dead      bool          `json:"dead,omitempty"`
 	Method    string        `json:"method,omitempty"` // HTTP method override
+	Shape     string        `json:"shape,omitempty"`  // non-canonical spelling of the endpoint path: trailing double dot dotdot
 }
 
 type PullWorld struct {
@@ -322,6 +323,22 @@ func (w *PullWorld) Op(op *PullOp) {
 	default:
 		var reqBody map[string]any
 		target := endpoint + "/" + op.Kind
+		// the server serves the *cleaned* path, so these all address the same endpoint
+		switch op.Shape {
+		case "trailing":
+			target += "/"
+		case "double":
+			target = endpoint + "//" + op.Kind
+		case "dot":
+			target = endpoint + "/./" + op.Kind
+		case "dotdot":
+			target = endpoint + "/x/../" + op.Kind
+		case "lead":
+			target = "/" + endpoint + "/" + op.Kind
+		}
+		if op.Shape != "" {
+			w.Res.probe("pull.path_shape." + op.Shape)
+		}
 		h := w.Pull
 		method := "POST"
 		switch op.Kind {
@@ -704,6 +721,9 @@ func GenPullProgram(t *rapid.T, authHeavy bool) *Program {
 				op.Kind = rapid.SampledFrom([]string{"dequeue", "dequeue", "ack"}).Draw(t, "wkind")
 			default:
 				op.Kind = rapid.SampledFrom([]string{"dequeue", "dequeue", "dequeue", "ack", "ack", "nack", "nack", "extend"}).Draw(t, "kind")
+				if rapid.IntRange(0, 4).Draw(t, "shape?") == 0 {
+					op.Shape = rapid.SampledFrom([]string{"trailing", "double", "dot", "dotdot", "lead"}).Draw(t, "shape")
+				}
 				if rapid.IntRange(0, 14).Draw(t, "method") == 0 {
 					op.Method = rapid.SampledFrom([]string{"GET", "PUT", "DELETE"}).Draw(t, "m")
 				}
